@@ -73,6 +73,7 @@ def optional_prose_replay():
 
 def main(tier, write_baseline=False):
     run = Run("C02", tier, "other", checker_cmd=common.checker_cmd("C02", tier))
+    run.confirm_abstracted = ('interpolate_defaults', '_infer_default')  # refutations of these exact contracts count only with an input that fails on the real code (report.Run.violation)
     M.RAISE_CTX.update(prop="C02", write=bool(write_baseline))
     run.trusted_base.update(["cddvc E1 block contracts (access paths via getattr/setattr, Seq views)", "z3 5.1 sequences"])
     refuted = e1.run_contracts(run, "contracts.C02")
